@@ -1079,6 +1079,14 @@ class M_run_dag(CoroBase):
         out.append(('launched-in-a-state-where-the-node-is-ready|C03', ready_formula(it, sp.snap, a.self, a.dag, node)))
         out.append(('not-launched-in-a-failed-one-of-scope|C10,C03', z3.Implies(sub.is_oneof, z3.Not(
             has_error_formula(it, sp.snap, a.self, a.dag)))))
+        # C03 / C10: a contained failure is never delivered as a value.  Inside a one-of scope failures are *stored* as
+        # results; the scope's error check (no failed node among the scope's nodes) protects plain dependencies, but the
+        # value of a switch parameter comes from the selected case, which is not a node of the scope
+        px = z3.Const('lfx', PyV)
+        sw_ = m.S.SW.get(px, z3.BoolVal(False))
+        out.append(('in-a-one-of-scope-the-selected-case-of-a-consumed-switch-holds-no-failure|C03,C10', z3.Implies(sub.is_oneof, FA(
+            [px], z3.Implies(z3.And(BASE_PRED(it, sp.snap, m, a.dag, node, px), m.G.is_switch(px), PyV.is_case(sw_)),
+                             z3.Not(PyV.is_exc(m.S.R.get(PyV.cnode(sw_), z3.BoolVal(False))))), patterns=[m.G.edge(px, node)]))))
         out.append(('launched-as-its-own-task-and-not-awaited|C06', not [e for e in effs if e.kind == 'yield'
                                                                           and effs.index(e) > effs.index(sp)]))
         out.append(('task-is-named-after-the-node', z3.simplify(T(sp.name, st) == node)))
